@@ -495,6 +495,8 @@ def _float_elem(dtype, pal):
         return st.sampled_from(S.PAL_HALVES)
     if pal == "nonf32":
         return st.sampled_from(S.PAL_NONF32)
+    if pal == "tiny":   # radiance-scaled / dark cells: every difference is far below 1e-7 and still not zero
+        return st.sampled_from([1e-8, 2.5e-8, 3e-9, 7e-8, 1.5e-8, 0.0, -2e-8, 6e-9])
     width = 32 if dtype == "float32" else 64
     pos = st.floats(min_value=2.0 ** -20, max_value=2.0 ** 20, width=width, allow_nan=False)
     if pal == "freepos":
@@ -503,7 +505,7 @@ def _float_elem(dtype, pal):
 
 
 INT_PALS = ["small", "bnd", "bnd", "full"]
-FLOAT_PALS = ["smallint", "signed", "halves", "nonf32", "free", "free", "freepos"]
+FLOAT_PALS = ["smallint", "signed", "halves", "nonf32", "free", "free", "freepos", "tiny"]
 
 
 def _neg_ok(dtype):
@@ -554,6 +556,9 @@ def band_set(draw, nb, max_side, pair=(0, 1), want_nan=True, rels=("indep", "ind
             elif m == 3:
                 for k in range(nb):
                     flats[k][c] = 0.0 if isf else 0
+            elif m == 4 and isf and flats[i][c] != "nan" and abs(flats[i][c]) >= 2.0 ** -20:   # not around 0: its neighbours are subnormal
+                # one float32 ulp apart: sums / differences of the pair are tiny but NOT zero, the index is defined there
+                flats[j][c] = float(np.nextafter(np.float32(flats[i][c]), np.float32(np.inf if c % 2 else -np.inf)))
     # NaN cells (float bands only)
     if want_nan:
         nanmode = draw(st.sampled_from(["none", "none", "one", "some", "half"]))
